@@ -16,8 +16,15 @@ Specifications
                            count is an ErrorStep, skipped / recorded lines are inert, work bounded, StepRule.
   spec/NegSpace_Gen        (G) transition cover of the case graph context x statement(op, argc, pos, class):
                            every op of the table x argc in {lo-1..hi+1, 129..600} x class of the varied argument x
-                           context {top, open, skip, rec, mac, rept, struct, sect}; prints per case the context
-                           statements, the closers of the optimistic outcome, the allowed exit statuses, `heavy`.
+                           context {top, open, skip, rec, mac, rept, struct, sect, ltop, lnarrow, lshort}; the last
+                           three run with the listing on (asl -L to a scratch file) under the default page, `page 0,5`
+                           and `page 5` with a user function defined, so that every statement is also seen by the
+                           listing printers and the symbol / function tables.  Size/count class {4,5,6,127,128,129,
+                           255,256,257,511,512,513,1000,5000,32767,65536} for the first argument of every statement
+                           that sizes the code buffer (DRES = DS/RMB/RES/BSS.., DFILL = FB/FW/DS n,v.., DDUP =
+                           <n> DUP (v), DREP = [n]v, ALIGN n,fill) and for both arguments of PAGE.  Prints per case
+                           the context statements, the closers of the optimistic outcome, the command line options,
+                           the allowed exit statuses, `heavy`.
   spec/NegSpace_Trace      (V) stmt-hook events (real stack depths after every line) of the replayed cases (and,
                            thorough, of all 201 golden programs) validated against the statement table.
   spec/CodeFileReader(_MC) byte-stream reader of toolutils.c + tool loops; machine = grammar (doc/file-formats.md),
@@ -26,8 +33,11 @@ Specifications
   spec/HexReader           Intel-HEX reader of das.c; truncations and single character substitutions.
 
 Replay (all under the sanitizer build, stdin closed, time and output-size limits)
-  asl   generic cases rendered for rotating CPU dialects; data cases for every data pseudo op a CPU accepts
-        (discovered by probing a candidate list on every CPU named in the golden sources); cases planted into
+  asl   generic cases rendered for rotating CPU dialects; data / reserve / fill / DUP / [n] cases for every such
+        statement a CPU accepts (discovered by ONE probing run per CPU named in the golden sources: one line per
+        candidate mnemonic and shape, lines without an error are accepted).  Quick tier: one CPU per distinct
+        acceptance signature (about 40 families) and for each (CPU, mnemonic, role) at least the counts 129, 257,
+        513, 5000 that cross 128/256/512/4096 bytes; thorough: every CPU, ten count classes.  Cases planted into
         golden sources at a seed-chosen line.
   tools every generated code file x {plist, pbind, p2bin, p2hex, alink}; hex files x dasl -hexfile, the same bytes
         as -binfile, and binfile option classes.
@@ -39,7 +49,7 @@ Not judged (SPEC-DRIFT at most): which statements are errors (finer `allowed` se
 
 Bounds: one varied argument per statement (+ all-arguments variants), <= 600 arguments, one level of context,
   files <= ~100 bytes; quick runs a stratified seed-chosen sample (every op x context at least once).
-NOT covered: raw byte / grammar-blind fuzzing, CPU instruction operands, option combinations of asl beyond -q,
+NOT covered: raw byte / grammar-blind fuzzing, CPU instruction operands, options of asl other than -q and -L,
   I/O errors, memory exhaustion, inputs longer than the bounds; absence of out-of-bounds accesses is only as good
   as ASan/UBSan detection on the explored inputs.
 
@@ -48,6 +58,7 @@ Mutations tried (patches in selftest/C03-m*.diff, applied to a scratch copy, `VE
   m2 asmif.c CodeENDIF: empty-stack test inverted (stray ENDIF dereferences NULL)    -> VIOLATION (SEGV in CodeENDIF)
   m3 toolutils.c FormatError: exit(3) -> exit(0)                                     -> VIOLATION x20 (malformed accepted)
   m4 toolutils.c ReadHeaderByte: truncation no longer a format error                 -> VIOLATION x20 (tools hang)
+  m5 natpseudo.c DecodeFx: SetMaxCodeLen(Size) instead of (Size << Shift)            -> VIOLATION (`fw 129,1` on COP410)
   spec mutant: Pseudo() accepts a closer without opener silently                     -> NegSpace_MC: ClosersNeverUnderflow violated
   corrupted trace: `std` changed by an ALIGN event / stray ENDSTRUCT without error   -> NegSpace_Trace prints both as BAD
 History: on the pinned tree the exploration found 16 defect families (ALIGN 0, empty symbol name, > 3 function
@@ -55,6 +66,8 @@ History: on the pinned tree the exploration found 16 defect families (ALIGN 0, e
   the code buffer, M16 OpSize[], CP-1600 ZERO, NULL put function in intpseudo.c, the code file reader of all five tools
   (hangs, SIGFPE, out-of-bounds, accepted malformed files), dasl on an empty image, p2hex granularity 255); fixes are in
   proposed_fixes/C03-*.diff, known_findings/C03.json records which are applied ("fixed") and which still are "known".
+  Round 2 (count classes, -L): symbol list with a page narrower than an entry, WrLstLine's 2500 byte buffer, DN on
+  byte-granular targets (IncCurrCodeFill) -- three more proposed fixes / known entries.
 """
 import json
 import os
@@ -72,9 +85,9 @@ TOOL_ENV = {"ASAN_OPTIONS": "detect_leaks=0:abort_on_error=0:exitcode=99:allocat
 MSGS = ["tools.msg", "cmdarg.msg", "ioerrs.msg"]
 
 SIZES = {  # tier -> sample sizes
-    "quick": dict(generic=5000, data=1100, data_cpus=18, plant=100, toolruns=650, hex=120, trace=1500,
+    "quick": dict(generic=6000, data=900, data_cpus=18, plant=100, toolruns=650, hex=120, trace=1500,
                   t_asl=12, t_tool=1.5),
-    "thorough": dict(generic=60000, data=36000, data_cpus=10 ** 9, plant=3000, toolruns=10 ** 9, hex=10 ** 9,
+    "thorough": dict(generic=60000, data=20000, data_cpus=10 ** 9, plant=3000, toolruns=10 ** 9, hex=10 ** 9,
                      trace=20000, t_asl=30, t_tool=3),
 }
 
@@ -89,6 +102,7 @@ def asl_key(case, cpu, res, fail, mnemonic=None, planted=None):
     k["fail"] = fail
     k["where"] = c03run.where(res)
     k["heavy"] = bool(case["heavy"])
+    k["listing"] = "-L" in case.get("opts", [])
     if planted:
         k["planted"] = planted
     return k
@@ -324,7 +338,8 @@ def main(tier):
         src = c03lib.case_source(c, cpu)
         f = dict(c03lib.AUX_FILES)
         f["a.asm"] = src
-        j = {"files": f, "cmd": ["asl", "-q", "a.asm"], "timeout": 3 if c["heavy"] else sz["t_asl"]}
+        j = {"files": f, "cmd": ["asl", "-q"] + list(c.get("opts", [])) + ["a.asm"],
+             "timeout": 3 if c["heavy"] else sz["t_asl"]}
         if bld.hooks and not c["heavy"] and c["s"]["argc"] <= 4 and ntrace < sz["trace"]:
             j["trace"] = "file,stmt"
             j["trace_filter"] = ("pass_begin", "stmt")
@@ -360,38 +375,47 @@ def main(tier):
         rep.drift("exit class: %s in ctx %s: model allows %s, asl exits %s (%d cases, e.g. `%s`)" %
                   (dk[0], dk[1], list(dk[2]), dk[3], ndrift[dk], dex[dk]))
 
-    # ---- asl: data pseudo ops of every CPU family ----------------------------------------------------------
+    # ---- asl: data / reserve / fill / repeat statements of every CPU family ------------------------------
     cpus = c03lib.corpus_cpus()
     main_cpus = [c.upper() for c in c03lib.DIALECTS]
-    if sz["data_cpus"] < len(cpus):
-        rr = rng("c03/cpus")
-        rest = [c for c in cpus if c not in main_cpus]
-        rr.shuffle(rest)
-        cpus = sorted(set(main_cpus[:6] + rest[:sz["data_cpus"]]))
     with Phase("probe data pseudo ops on %d CPUs" % len(cpus)):
-        acc = c03lib.probe_data_ops(hook, cpus)
-    rep.part("data_ops", cpus=len(acc), accepted_mnemonics=sum(len(v) for v in acc.values()))
+        acc = c03lib.probe_ops(hook, cpus)
+    # CPUs that accept exactly the same statements in every role share one implementation family for the quick tier
+    sigs = {}
+    for cpu in sorted(acc):
+        sigs.setdefault(tuple(sorted((ro, tuple(m)) for ro, m in acc[cpu].items())), []).append(cpu)
+    reps = sorted(set(v[0] for v in sigs.values()) | set(c for c in main_cpus[:6] if c in acc))
+    use_cpus = sorted(acc) if sz["data_cpus"] >= len(acc) else reps
+    rep.part("data_ops", cpus_probed=len(acc), signatures=len(sigs), cpus_used=len(use_cpus),
+             accepted={ro: sum(len(v.get(ro, [])) for v in acc.values()) for ro in ("data", "res", "fill", "dup", "rep")})
     dj, dm = [], []
     top = [c for c in datac if c["ctx"] == "top"]
     other = [c for c in datac if c["ctx"] != "top"]
-    allpairs = []
-    for cpu in sorted(acc):
-        for mn in acc[cpu]:
-            isres = mn in c03lib.RESERVE_OPS
-            for c in top:
-                if (c["s"]["op"] == "DRES") == isres:
-                    allpairs.append((c, cpu, mn))
-    for c in other:            # other contexts only on the main dialects
+    is_count = lambda c: c["s"]["op"] in ("DRES", "DFILL", "DDUP", "DREP") and c["s"]["pos"] == 1 and \
+        c["s"]["cls"][:1] == "c" and c["s"]["cls"][1:].isdigit()
+    allpairs, countpairs = [], []
+    for cpu in use_cpus:
+        for c in top:
+            role = c03lib.ROLE_OF_OP[c["s"]["op"]]
+            for mn in acc[cpu].get(role, []):
+                (countpairs if is_count(c) else allpairs).append((c, cpu, mn))
+    for c in other:            # other contexts (incl. the listing ones) only on the main dialects
         for cpu in main_cpus[:5]:
-            for mn in acc.get(cpu, [])[:3]:
-                if (c["s"]["op"] == "DRES") == (mn in c03lib.RESERVE_OPS):
-                    allpairs.append((c, cpu, mn))
-    pick = stratified(allpairs, sz["data"], rng("c03/data"), lambda t: (t[1], t[2], t[0]["s"]["argc"] > 4))
+            for mn in acc.get(cpu, {}).get(c03lib.ROLE_OF_OP[c["s"]["op"]], [])[:3]:
+                allpairs.append((c, cpu, mn))
+    # count classes: every (CPU family, statement, role) at least at the sizes that cross 128 / 256 / 512 / 4096 bytes
+    crossing = ("c129", "c257", "c513", "c5000")
+    if tier != "quick":
+        crossing += ("c128", "c256", "c512", "c1000", "c32767", "c65536")
+    must = [t for t in countpairs if t[0]["s"]["cls"] in crossing and t[0]["s"]["argc"] == (2 if t[0]["s"]["op"] == "DFILL" else 1)]
+    mids = set(id(t) for t in must)
+    pick = must + stratified([t for t in allpairs + countpairs if id(t) not in mids], sz["data"],
+                             rng("c03/data"), lambda t: (t[1], t[2], t[0]["s"]["op"], t[0]["s"]["argc"] > 4))
     for (c, cpu, mn) in pick:
         src = c03lib.case_source(c, cpu, mn)
-        dj.append({"files": {"a.asm": src}, "cmd": ["asl", "-q", "a.asm"], "timeout": sz["t_asl"]})
+        dj.append({"files": {"a.asm": src}, "cmd": ["asl", "-q"] + list(c.get("opts", [])) + ["a.asm"], "timeout": sz["t_asl"]})
         dm.append((c, cpu, mn, src))
-    with Phase("asl data: %d cases" % len(dj)):
+    with Phase("asl data: %d cases (%d size/count cases)" % (len(dj), len(must))):
         dres = c03run.run_jobs(bld, dj)
     for (c, cpu, mn, src), j, res in zip(dm, dj, dres):
         rep.evaluated()
@@ -420,7 +444,7 @@ def main(tier):
         src = c03lib.plant(text, lines, at)
         f = dict(c03lib.AUX_FILES)
         f[t[0] + ".asm"] = src
-        cmd = ["asl"] + t[3] + ["-q", "-i", t[1], "-i", aslrun.INCLUDE, t[0] + ".asm"]
+        cmd = ["asl"] + t[3] + ["-q"] + list(c.get("opts", [])) + ["-i", t[1], "-i", aslrun.INCLUDE, t[0] + ".asm"]
         pj.append({"files": f, "cmd": cmd, "timeout": 90})
         pm.append((c, t[0], at, src))
     with Phase("asl planted: %d golden sources" % len(pj)):
